@@ -346,7 +346,7 @@ fn gen_site_vals(g: &mut Rng) -> SiteVals {
 }
 
 macro_rules! renamed_sites {
-    ($v:ident; $( $idx:literal : $emit:ident / $evt:ident, $lvl:expr, $tpl:literal, model [$( ($key:literal, $val:expr) ),*], { $($props:tt)* } ; )*) => {
+    ($v:ident; $( $idx:literal : $emit:ident / $evt:ident, $lvl:expr, $tpl:tt, model [$( ($key:literal, $val:expr) ),*], { $($props:tt)* } ; )*) => {
         const N_RENAMED_SITES: usize = [$($idx),*].len();
 
         /// The final (key, value) pairs the site attaches, in no particular order; absent optional /
@@ -380,10 +380,10 @@ macro_rules! renamed_sites {
         }
 
         /// Emit through the site: directly (`emit!` / level macro) or as `emit!(evt: evt!(..))`.
-        fn renamed_site_emit<E: Emitter, F: Filter, C: Ctxt, T: emit::Clock, W: Filter>(
+        fn renamed_site_emit<E: Emitter, F: Filter, C: Ctxt, T: emit::Clock, R: emit::rng::Rng, W: Filter>(
             site: usize,
             via_evt: bool,
-            rt: &Runtime<E, F, C, T, Empty>,
+            rt: &Runtime<E, F, C, T, R>,
             when: Option<&W>,
             mdl: &str,
             ext: MExt,
@@ -432,6 +432,13 @@ renamed_sites! { v;
     5: debug / debug_evt, Some(0usize), "renamed site five",
         model [("b", Some(v.m[0].clone())), ("a", Some(v.m[1].clone())), ("user.name", Some(v.m[2].clone())), ("z", Some(v.m[3].clone()))],
         { #[emit::key("b")] #[emit::as_value] a: v.m[0], #[emit::key("a")] #[emit::as_value] b: v.m[1], #[emit::key("user.name")] #[emit::as_value] m: v.m[2], #[emit::as_value] z: v.m[3] };
+}
+
+fn leaf_key(l: &FLeaf) -> Option<&str> {
+    match l {
+        FLeaf::HasKey(k) | FLeaf::LacksKey(k) | FLeaf::FirstEq(k, _) | FLeaf::Pull(k, _, _) | FLeaf::KeyAt(_, k) => Some(k.as_str()),
+        _ => None,
+    }
 }
 
 /// The model event a renamed-key site hands to the pipeline: the site's own properties in the
@@ -768,7 +775,12 @@ where
 
         // ---- emission paths
         let n_site = raw.first("a").map(|v| v.text().len() as i64).unwrap_or(7) - 3;
-        let paths: [&str; 10] = [
+        let site = (case.index as usize + ei) % N_RENAMED_SITES;
+        let via_evt = (case.index as usize / N_RENAMED_SITES + ei) % 2 == 1;
+        let sv = &case.site_vals[ei];
+        let paths: [&str; 12] = [
+            "macro-renamed-site",
+            "slot-macro-renamed-site",
             "runtime-emit",
             "core-emit",
             "runtime-as-emitter",
@@ -786,6 +798,13 @@ where
             log.clear();
             // what is handed to the pipeline, and which filter is in effect
             let (handed, uses_when) = match path {
+                "macro-renamed-site" | "slot-macro-renamed-site" => match renamed_site_event(site, raw, sv) {
+                    Ok(ev) => (ev, true),
+                    Err(what) => {
+                        r.violation(&format!("C01:macro-site-renamed-key:enumeration:site-{}", site), &what, case.json(path, Some(ei)));
+                        continue;
+                    }
+                },
                 "macro-site" | "private-emit" => {
                     let mut ev = raw.clone();
                     ev.tpl = vec![TPart::Text("site zero ".into()), TPart::Hole("n".into())];
@@ -837,6 +856,8 @@ where
             let ran = catch(|| {
                 let w = w_real.as_ref();
                 raw.with_real(|evt| match path {
+                    "macro-renamed-site" => renamed_site_emit(site, via_evt, &rt, w, &raw.mdl, raw.ext, &raw.props[..], sv),
+                    "slot-macro-renamed-site" => renamed_site_emit(site, via_evt, srt, w, &raw.mdl, raw.ext, &raw.props[..], sv),
                     "runtime-emit" => rt.emit(evt),
                     "core-emit" => emit_core::emit(rt.emitter(), rt.filter(), rt.ctxt(), rt.clock(), evt),
                     "runtime-as-emitter" => Emitter::emit(&rt, evt),
@@ -900,6 +921,14 @@ where
             }
             r.observe("short-circuit:and-right-side-skipped", exp.and_right_skipped);
             r.observe("short-circuit:or-right-side-skipped", exp.or_right_skipped);
+            if path.ends_with("renamed-site") {
+                r.observe(&format!("renamed-key-site:{}:{}", site, if accepted { "accept" } else { "reject" }), 1);
+                r.observe("renamed-key-site:filter-leaf-evaluations", exp.evals.len() as u64);
+                r.observe(
+                    "renamed-key-site:filter-leaf-evaluations-on-site-keys",
+                    exp.evals.iter().filter(|(i, _, _)| leaf_key(&cx.fleaves[*i]).map(|k| SITE_KEYS.contains(&k)).unwrap_or(false)).count() as u64,
+                );
+            }
             r.observe("typed-leaf:evaluations", exp.typed_evals);
             r.observe("typed-leaf:first-value-fails-cast-later-duplicate-would-pass", exp.typed_first_fails_later_casts);
             r.observe("stateful-leaf:evaluations", exp.stateful_evals);
@@ -997,11 +1026,22 @@ where
     for (ei, (raw, clock)) in case.events.iter().enumerate() {
         clk.set(*clock);
         let n_site = 4i64;
-        for path in ["typed-runtime-emit", "typed-runtime-macro-site", "typed-when"] {
+        let site = (case.index as usize + ei + 3) % N_RENAMED_SITES;
+        let via_evt = (case.index as usize / N_RENAMED_SITES + ei) % 2 == 0;
+        let sv = &case.site_vals[ei];
+        for path in ["typed-runtime-emit", "typed-runtime-macro-site", "typed-when", "typed-runtime-renamed-site", "typed-when-renamed-site"] {
             r.eval();
             r.observe(&format!("path:{}", path), 1);
             log.clear();
-            let handed = if path == "typed-runtime-macro-site" {
+            let handed = if path.ends_with("renamed-site") {
+                match renamed_site_event(site, raw, sv) {
+                    Ok(ev) => ev,
+                    Err(what) => {
+                        r.violation(&format!("C01:macro-site-renamed-key:enumeration:site-{}", site), &what, case.json(path, Some(ei)));
+                        continue;
+                    }
+                }
+            } else if path == "typed-runtime-macro-site" {
                 let mut ev = raw.clone();
                 ev.tpl = vec![TPart::Text("site zero ".into()), TPart::Hole("n".into())];
                 ev.props.insert(0, ("n".to_string(), MVal::I(n_site)));
@@ -1016,6 +1056,14 @@ where
                 deliver(&case.d, cx, &built, &mut exp);
             }
             r.observe(if accepted { "typed-position:accepts" } else { "typed-position:rejects" }, 1);
+            if path.ends_with("renamed-site") {
+                r.observe(&format!("renamed-key-site:{}:{}", site, if accepted { "accept" } else { "reject" }), 1);
+                r.observe("renamed-key-site:filter-leaf-evaluations", exp.evals.len() as u64);
+                r.observe(
+                    "renamed-key-site:filter-leaf-evaluations-on-site-keys",
+                    exp.evals.iter().filter(|(i, _, _)| leaf_key(&cx.fleaves[*i]).map(|k| SITE_KEYS.contains(&k)).unwrap_or(false)).count() as u64,
+                );
+            }
             r.observe("typed-position:typed-leaf-evaluations", exp.typed_evals);
             r.observe("typed-position:first-value-fails-cast-later-duplicate-would-pass", exp.typed_first_fails_later_casts);
             let ran = catch(|| {
@@ -1028,6 +1076,8 @@ where
                         let base = &raw.props[..];
                         emit::emit!(rt: &typed_rt, mdl: mdl, extent: ext, props: base, "site zero {n}")
                     }
+                    "typed-runtime-renamed-site" => renamed_site_emit(site, via_evt, &typed_rt, None::<&Empty>, &raw.mdl, raw.ext, &raw.props[..], sv),
+                    "typed-when-renamed-site" => renamed_site_emit(site, via_evt, rt, Some(&fp.real), &raw.mdl, raw.ext, &raw.props[..], sv),
                     _ => emit::emit!(rt: rt, evt: evt, when: &fp.real),
                 });
                 log.deliveries.lock().unwrap().clone()
@@ -1408,7 +1458,7 @@ fn main() {
         let per_run = args.get_u64("shapes", 3);
         (args.get_u64("cases", 2), per_run, (seed % ((shapes + per_run - 1) / per_run)) * per_run)
     } else {
-        (args.n(25_000, 600_000), args.n(shapes * 350, shapes * 5_000), 0)
+        (args.n(22_000, 600_000), args.n(shapes * 350, shapes * 5_000), 0)
     };
     par_cases(&mut r, &args, n_dyn, |i, r| dyn_case(r, seed, i));
     par_cases(&mut r, &args, n_static, |i, r| static_case(r, seed, static_from + i));
